@@ -69,6 +69,7 @@ def parseArg (t : String) : Option Arg :=
         | none => some (.s (if v == "~" then "" else v))
     else if k == "u" then some (match v.toNat? with | some n => .u n | none => .badnum)
     else if k == "b" then some (.b (v == "1"))
+    else if k == "x" || k == "f" then some (.s v)      -- bytes / float arguments: opaque to the model
     else if k == "i" then some (match parseInt? v with | some n => .i n | none => .badnum)
     else none
   | _ => none
@@ -163,6 +164,8 @@ def step (s : St) (ws : List String) : St × String :=
   | ["q", "bals"] =>
     (s, joinSp (["u0", "u1", "u2", "u3", "ca1", "ca2", "ca3", "adm0", "adm1", "adm2", "adm3"].map
       fun a => s!"{a}={s.node.led.getBal a}"))
+  | ["q", "dump"] => (s, "-")
+  | "q" :: "view" :: _ => (s, "-")
   | ["q", "height"] => (s, toString s.node.height)
   | ["restart"] => ({ s with node := { s.node with cache := [] } }, s!"ok h={s.node.height}")
   | ["restart", _] => ({ s with node := { s.node with cache := [] } }, s!"ok h={s.node.height}")
